@@ -133,7 +133,7 @@ def gen_table(r):
     assign = []
     for _ in range(r.randint(1, 6)):
         ch = r.choice(ALPHABET)
-        code = r.choice([0, 1, 2, 3, 4, 6, 7, 8, 9, 10, 11, 12, 13, 14, 15, 11, 12, 10])
+        code = r.choice([0, 1, 2, 3, 4, 5, 6, 7, 8, 9, 10, 11, 12, 13, 14, 15, 11, 12, 10])
         if ch == '\n' and r.random() < 0.7:
             continue
         assign.append([ch, code])
@@ -311,7 +311,7 @@ def run(case, st):
     spec = case['table']
     if spec['base'] == 'verbatim':
         ctx.setVerbatimCatcodes()
-    via_source = (spec['base'] == 'default' and spec['assign'] and all(ch in PRIM_SAFE for ch, code in spec['assign'])
+    via_source = (spec['base'] == 'default' and spec['assign'] and all(ch in PRIM_SAFE and code != 5 for ch, code in spec['assign'])
                   and common.case_hash(case)[1] % 2 == 0)
     if spec.get('prelude'):
         # the table is whatever the prelude leaves behind (\makeatletter / \makeatother in their combinations)
@@ -443,6 +443,10 @@ def run(case, st):
         st.counters['tokens_compared'] += len(gotc)
         if gotc != exp:
             key = classify_diff(s, table, exp, gotc)
+            if key is None:
+                st.outcomes['precondition_skip'] += 1
+                st.counters['nf9_skip:escape-before-eol-in-line-less-reading'] += 1
+                continue
             k = 0
             while k < min(len(exp), len(gotc)) and exp[k] == gotc[k]:
                 k += 1
@@ -475,9 +479,13 @@ def classify_diff(s, table, exp, got):
     # line structure is only tracked through the end-of-line category: with a re-categorised
     # newline the observed stream must be exactly what a line-less reading of the same rules gives
     if cat('\n') != 5 and '\n' in s:
-        alt = L.collapse_pars(L.tokenize(s, table, stream=True))
+        aflags = set()
+        alt = L.collapse_pars(L.tokenize(s, table, stream=True, flags=aflags))
         if alt == got:
             return 'line-structure-lost-when-newline-recategorised'
+        if 'escape-before-eol' in aflags:
+            # in the line-less reading an escape character stands directly before an end-of-line character (NF-9)
+            return None
     # blanks kept after a control word whose last letter is not an ASCII letter
     if g == (10, ' ') and prev and prev[0] == 'cs' and prev[1] and prev[1] != 'par' and prev[1][-1] not in string.ascii_letters and cat(prev[1][-1]) == 11:
         return 'blank-kept-after-control-word-ending-in-non-ascii-letter'
